@@ -153,6 +153,7 @@ def summarise(an):
     adv_min = None
     adv_max = None
     out_le = True
+    out_ge = True
     n = 0
     points = []
     if is_result:
@@ -191,11 +192,15 @@ def summarise(an):
             ln = st.store.get("len:" + data)
             if ln is None or not entails(st.facts, an.iv, out - ln[1], an.depth):
                 out_le = False
+            if ln is None or not entails(st.facts, an.iv, ln[1] - out, an.depth):
+                out_ge = False
         else:
             out_le = False
+            out_ge = False
     if n == 0:
         return {"adv_min": None, "out_le_len": False, "ok_points": 0}
-    return {"adv_min": adv_min if (adv_min is not None and adv_min >= 0) else None, "out_le_len": out_le, "ok_points": n}
+    return {"adv_min": adv_min if (adv_min is not None and adv_min >= 0) else None, "out_le_len": out_le,
+            "out_ge_len": out_ge, "ok_points": n}
 
 
 class Whole:
